@@ -859,6 +859,42 @@ def _ends_with_line_continuation(line, linecont):
     return True
 
 
+def _string_open_at_continuation(line, linecont, quote=None):
+    """The quote character of the single-quoted string literal that is still
+    open where ``line`` ends with ``linecont`` -- the next physical line then
+    continues that literal -- or None.  ``quote`` is the literal already open
+    at the start of ``line``.
+    """
+    triple = False
+    escape = False
+    i = 0
+    end = len(line) - len(linecont)
+    while i < end:
+        c = line[i]
+        if quote is None:
+            if c == "#":
+                return None
+            if c in ("'", '"'):
+                if line[i : i + 3] == c * 3:
+                    quote, triple = c, True
+                    i += 3
+                    continue
+                quote, triple = c, False
+        else:
+            if escape:
+                escape = False
+            elif c == "\\":
+                escape = True
+            elif triple and line[i : i + 3] == quote * 3:
+                quote, triple = None, False
+                i += 3
+                continue
+            elif not triple and c == quote:
+                quote, triple = None, False
+        i += 1
+    return None if triple else quote
+
+
 def strip_continuation_comments(src):
     """Strip comment-only lines that fall inside a backslash-continuation chain.
 
@@ -877,7 +913,8 @@ def strip_continuation_comments(src):
     locations remain accurate.
 
     A ``#`` inside a string literal does not start a comment, and a line
-    inside an open triple-quoted string is left untouched. Comment-only
+    inside an open triple-quoted string, or one that continues a
+    single-quoted string (``"a\\<NL>#b"``), is left untouched. Comment-only
     lines that are NOT preceded by an active backslash continuation are
     also left untouched, so a top-level ``# comment`` keeps its current
     semantics.
@@ -889,6 +926,7 @@ def strip_continuation_comments(src):
     in_cont = False  # previous "active" line ended with continuation
     accumulated = ""  # used only to track open triple-quoted strings
     in_triple = False
+    open_quote = None  # single-quoted string continued from the previous line
     for raw in src.splitlines(keepends=True):
         if raw.endswith("\r\n"):
             body, eol = raw[:-2], "\r\n"
@@ -896,7 +934,11 @@ def strip_continuation_comments(src):
             body, eol = raw[:-1], raw[-1:]
         else:
             body, eol = raw, ""
-        is_comment_only = not in_triple and body.lstrip(" \t\f").startswith("#")
+        is_comment_only = (
+            not in_triple
+            and open_quote is None
+            and body.lstrip(" \t\f").startswith("#")
+        )
         if in_cont and is_comment_only:
             replacement = linecont + eol
             out.append(replacement)
@@ -906,6 +948,11 @@ def strip_continuation_comments(src):
         accumulated += raw
         in_triple = bool(_have_open_triple_quotes(accumulated))
         in_cont = False if in_triple else _ends_with_line_continuation(body, linecont)
+        open_quote = (
+            _string_open_at_continuation(body, linecont, open_quote)
+            if in_cont
+            else None
+        )
     return "".join(out)
 
 
